@@ -5,8 +5,8 @@
 d=$1; name=$(echo $d | tr '/' '_'); wt=/tmp/wt/confirm_$name
 log=$d/confirm.log; : > $log
 git -C /repo worktree remove --force $wt 2>/dev/null; rm -rf $wt
-git -C /repo worktree add -q --detach $wt HEAD || exit 2
-echo "HEAD $(git -C /repo log --format=%h -1)" >> $log
+git -C /repo worktree add -q --detach $wt ${BASE:-HEAD} || exit 2
+echo "HEAD $(git -C /repo log --format=%h -1 ${BASE:-HEAD})" >> $log
 cmdline=$(grep -m1 -E "g\+\+|clang\+\+" $d/demo.cpp | sed -e 's#^[ /*]*##')
 # normalise the include path of the demo's compile command to this worktree
 build_demo(){ eval "$(echo "$cmdline" | sed -E "s#-I *[^ ]*/include#-I$wt/include#; s#[^ ]*demo.cpp#$d/demo.cpp#; s#-o +[^ ]+#-o $wt/demo_bin#")" >> $log 2>&1; }
